@@ -232,7 +232,7 @@ class EIG(BaseRoutine):
 
         # --- normalize participation factor ---
         for item in range(n_state):
-            pfactor[:, item] /= W_abs[item]
+            pfactor[item, :] /= W_abs[item]
         pfactor = np.round(pfactor, 5)
 
         return mu, pfactor, N, W
